@@ -786,6 +786,9 @@ async fn run(prop: &'static str, _tier: Tier) {
     let mut xst_cfg = stream::Config::new();
     xst_cfg.set_response_timeout(Duration::from_millis(2000));
     xst_cfg.set_streaming_response_timeout(Duration::from_millis(3000));
+    // A connection with a transfer in progress is not idle, however short
+    // the idle timeout (0: close as soon as nothing is outstanding).
+    xst_cfg.set_idle_timeout(Duration::from_millis(*sim::pick("xfr.idle_timeout_ms", &[10_000u64, 0, 1, 100])));
     // (The connection object has to outlive the request.)
     let _keep_alive: Box<dyn std::any::Any>;
     let mut getter: Box<dyn GetResponseMulti + Send + Sync> = if signed {
